@@ -1419,7 +1419,7 @@ def evaluate(t, env, dps=50, exact_round=False, tol=None):
                 if nm in MPFN:
                     # a sample far outside the working range of the function (sin of 1e400, exp of 1e9) is rejected: mpmath would otherwise
                     # spend minutes reducing the argument (observed: pi to ~1e9 bits inside mod_pi2)
-                    if any(not isinstance(v_, bool) and abs(v_) > (mp.mpf(10) ** 4 if nm in ('sinh', 'cosh', 'exp') else mp.mpf(10) ** 25) for v_ in a):
+                    if any(not isinstance(v_, bool) and abs(v_) > (mp.mpf(10) ** 12 if nm in ('sinh', 'cosh', 'exp') else mp.mpf(10) ** 25) for v_ in a):
                         raise OverflowError(nm)
                     r = MPFN[nm](*a)
                 elif nm.startswith('round') and nm[5:].isdigit():
